@@ -1012,7 +1012,10 @@ def compile_comprehension(compiler, expr, root, parts, final):
                     )
                 elif tagname == "if":
                     return v + asty.If(
-                        v, test=v.force_expr, body=f(parts).stmts, orelse=[]
+                        v,
+                        test=v.force_expr,
+                        body=f(parts).stmts or [asty.Pass(expr)],
+                        orelse=[],
                     )
                 elif tagname == "do":
                     return v + v.expr_as_stmt() + f(parts)
